@@ -115,8 +115,19 @@ where
             )?;
             WindowAction::Id(EcoVec::with_capacity(size), None)
         }
-        Node::Prim(Primitive::Box, _) => WindowAction::Box(EcoVec::new(), EcoVec::new()),
+        Node::Prim(Primitive::Box, _) => {
+            // All the windows are kept
+            validate_size::<T>(
+                (shape_prefix.iter().copied()).chain(window_shape.iter().copied()),
+                env,
+            )?;
+            WindowAction::Box(EcoVec::new(), EcoVec::new())
+        }
         node => {
+            // Windows are built one at a time
+            if !shape_prefix.contains(&0) {
+                validate_size::<T>(window_shape.iter().copied(), env)?;
+            }
             if let Some((f, size)) = f_mon_fast_fn(node, env)
                 .filter(|_| !shape_prefix.contains(&0))
                 .and_then(|f| {
